@@ -129,6 +129,21 @@ def check_transform(P, R, key):
         R.check(xd == sd, "POL.transform", key, "x and subtract scaled alike", "(x - subtract) / divide", "the mean is subtracted after scaling (x / divide - subtract)")
 
 
+def check_affine_constants(P, R, key, subtract_zero):
+    """transform computes ((X - input_subtract) / input_divide) @ weights: the fitted estimator leaves the divisor at one (and, for
+    WCCN, the offset at zero) - the whole normalisation is in `weights`."""
+    f = P.func(key)
+    n_div = 0
+    for st, t, v, k in stores(f):
+        if isinstance(t, ast.Attribute) and isinstance(t.value, ast.Name) and t.value.id == f.self_name:
+            if t.attr == "input_divide":
+                n_div += 1
+                R.check(const_value(v) in (1, 1.0), "AFFINE.divide", key, f"self.input_divide = {src(v)}", "1", f"the fitted divisor is {src(v)}, not 1: the transformed data are rescaled and their (within-class) covariance is no longer the identity", st.lineno)
+            if t.attr == "input_subtract" and subtract_zero:
+                R.check(const_value(v) in (0, 0.0), "AFFINE.subtract", key, f"self.input_subtract = {src(v)}", "0", f"WCCN subtracts {src(v)} before projecting", st.lineno)
+    R.check(n_div >= 1, "AFFINE.divide", key, "fit stores self.input_divide", "", "fit no longer stores the divisor used by transform")
+
+
 def run(P, R, tier):
     from ..engines import dimrun
     n, rets = dimrun.route(P, R, ["wccn.fit", "wccn.transform", "white.fit", "white.transform"], rules=["DIM.", "EXT."], where_prefix=["wccn:", "whitening:"])
@@ -192,6 +207,14 @@ def run(P, R, tier):
     elif found == 0 and not any(o.rule == "IDX.select" and o.verdict == "violation" for o in R.obs):
         R.floor("IDX.pair[WCCN.fit]", found, 1)
     check_transform(P, R, "wccn:WCCN.transform")
+    check_affine_constants(P, R, "wccn:WCCN.fit", subtract_zero=True)
+    # the scatter is scaled by exactly 1 / (number of classes)
+    pc_ = pol.Pol(P, f, track_coef=True, track_inv=True)
+    for st, v in [(st, v) for st, t, v, k in stores(f) if isinstance(t, ast.Attribute) and t.attr == "weights" and isinstance(t.value, ast.Name) and t.value.id == f.self_name]:
+        for ch in [n_ for n_ in cone(du, v, du.stmt_of(st), interproc=False).nodes if isinstance(n_, ast.Call) and src(n_.func).split(".")[-1] in ("inv", "pinv") and n_.args]:
+            tt = list(dict.fromkeys(pc_.terms(ch.args[0], du.stmt_of(ch))))
+            lits = sorted({x for s_, a in tt for x in a if x.startswith("#") or x.startswith("1/#")})
+            R.check(not lits, "POL.wccn-scale", f.key, f"inv({src(ch.args[0])[:40]})", "S_w / K with no other literal factor", f"the within-class scatter is scaled by a literal factor {lits} besides 1 / (number of classes): the projected within-class covariance is not the identity", ch.lineno)
     # ---- Whitening --------------------------------------------------------------------
     f2, du2 = check_fit_common(P, R, "whitening:Whitening.fit", inv_of=[(("X",), "the data"), (("cov",), "the covariance matrix")])
     n_centre = 0
@@ -204,6 +227,7 @@ def run(P, R, tier):
             R.check(ok and axis0, "DEP.centre", f2.key, f"self.input_subtract = {src(v)}", "per-feature training mean", "input_subtract is not the per-feature mean of the training data (transformed data are not zero-mean)", st.lineno)
     R.check(n_centre >= 1, "DEP.centre", f2.key, "fit stores self.input_subtract", "", "Whitening.fit no longer stores the training mean: transform does not centre the data (the whitened training data are not zero-mean)")
     check_transform(P, R, "whitening:Whitening.transform")
+    check_affine_constants(P, R, "whitening:Whitening.fit", subtract_zero=False)
     from ..engines import dtype as _dt
     n_dt = _dt.check_function(P, R, "wccn:WCCN.fit", raw_params=("X",)) + _dt.check_function(P, R, "whitening:Whitening.fit", raw_params=("X",))
     R.floor("DTYPE.raw sites (WCCN / whitening)", n_dt, 1)
